@@ -232,6 +232,9 @@ func (a *AttributeExpr) Validate(ctx string, parent eval.Expression) *eval.Valid
 	} else if ar := AsArray(a.Type); ar != nil {
 		elemType := ar.ElemType
 		verr.Merge(elemType.Validate(ctx, a))
+	} else if mp := AsMap(a.Type); mp != nil {
+		verr.Merge(mp.KeyType.Validate(ctx, a))
+		verr.Merge(mp.ElemType.Validate(ctx, a))
 	} else if u := AsUnion(a.Type); u != nil {
 		for _, ut := range u.Values {
 			verr.Merge(ut.Attribute.Validate(ctx, parent))
@@ -547,10 +550,20 @@ func (a *AttributeExpr) SetDefault(def any) {
 // its bases and references. If the parent attribute is not an object, it
 // returns nil.
 func (a *AttributeExpr) Find(name string) *AttributeExpr {
+	return a.find(name, make(map[*AttributeExpr]struct{}))
+}
+
+// find implements Find, seen guards against types that extend or reference each
+// other.
+func (a *AttributeExpr) find(name string, seen map[*AttributeExpr]struct{}) *AttributeExpr {
+	if _, ok := seen[a]; ok {
+		return nil
+	}
+	seen[a] = struct{}{}
 	findAttrFn := func(typ DataType) *AttributeExpr {
 		switch t := typ.(type) {
 		case UserType:
-			return t.Attribute().Find(name)
+			return t.Attribute().find(name, seen)
 		case *Object:
 			if att := t.Attribute(name); att != nil {
 				return att
